@@ -154,9 +154,17 @@ fn gen(args: &Args) {
     let big = args.has("big-nat");
     let mut made = vec![];
     for i in 0..count {
-        let mut r = SplitMix::derive(seed, "C15/tree", i);
-        let (c, j) = gen_code(&mut r, 0, big);
-        let bytes = c.into_bytecode(Some(magic(args)));
+        // images stay small (<= 8 KiB) so that every truncation offset and every bit can be tried
+        let mut attempt = 0;
+        let (bytes, j) = loop {
+            let mut r = SplitMix::derive(seed, "C15/tree", i * 64 + attempt);
+            let (c, j) = gen_code(&mut r, 0, big);
+            let bytes = c.into_bytecode(Some(magic(args)));
+            if bytes.len() <= 8192 || attempt >= 40 {
+                break (bytes, j);
+            }
+            attempt += 1;
+        };
         let p = format!("{outdir}/t{i}.pyc");
         std::fs::write(&p, &bytes).expect("write image");
         std::fs::write(format!("{outdir}/t{i}.json"), j.to_string()).expect("write expectation");
@@ -269,20 +277,30 @@ fn enumerate(img: &[u8], tier: &str, seed: u64) -> Vec<Fault> {
     let n = img.len();
     let thorough = tier == "thorough";
     let mut out = vec![Fault::None];
-    // every truncation offset
-    for k in 0..n {
-        out.push(Fault::Trunc(k));
+    let mut r = SplitMix::derive(seed, "C15/faults", n as u64);
+    // every truncation offset (images above 16 KiB: the first 4 KiB, the last 1 KiB and a sample)
+    if n <= 16384 {
+        for k in 0..n {
+            out.push(Fault::Trunc(k));
+        }
+    } else {
+        for k in (0..4096).chain(n - 1024..n) {
+            out.push(Fault::Trunc(k));
+        }
+        for _ in 0..4000 {
+            out.push(Fault::Trunc(r.below(n as u64) as usize));
+        }
     }
     // sector-granular holes; small images get small "sectors" too so that holes fall inside them
     for &s in &[512usize, 4096, 64, 16] {
         let mut a = 0;
+        let stride = if n / s > 2000 { (n / s / 2000 + 1) * s } else { s };
         while a < n {
             out.push(Fault::Zero(a, s));
             out.push(Fault::Cut(a, s));
-            a += s;
+            a += stride;
         }
     }
-    let mut r = SplitMix::derive(seed, "C15/faults", n as u64);
     // single bit flips: all of them for small images, a sample otherwise
     let all_bits = n * 8;
     let budget = if thorough { 200_000 } else { 16_384 };
@@ -301,7 +319,7 @@ fn enumerate(img: &[u8], tier: &str, seed: u64) -> Vec<Fault> {
     }
     // a length field replaced by a boundary value
     let bounds = [0xFFFF_FFFFu32, 0x7FFF_FFFF, 0x8000_0000, 0x0001_0000, 0x0100_0000, 0xFFFF, 0x100];
-    let step = if thorough { 1 } else { 3 };
+    let step = (if thorough { 1 } else { 3 }) * (n / 16384 + 1);
     let mut a = 16;
     while a + 4 <= n {
         for &b in &bounds {
